@@ -889,10 +889,14 @@ func (md *DIGlobalVariableExpression) LLString() string {
 	var fields []string
 	field := fmt.Sprintf("var: %s", md.Var)
 	fields = append(fields, field)
-	// NOTE: Should be required. Thus nil check should not be needed. However,
-	// Clang outputs `!0 = !DIGlobalVariableExpression(var: !1)` in cat.ll.
+	// The expression is a required field of LLVM, which reads `expr: null` as
+	// the empty expression; a missing expression (as output by older versions
+	// of Clang) is printed the same way.
 	if md.Expr != nil {
 		field = fmt.Sprintf("expr: %s", md.Expr)
+		fields = append(fields, field)
+	} else {
+		field = "expr: !DIExpression()"
 		fields = append(fields, field)
 	}
 	fmt.Fprintf(buf, "!DIGlobalVariableExpression(%s)", strings.Join(fields, ", "))
